@@ -30,6 +30,11 @@ type Transpiler struct {
 func (t *Transpiler) rewriteMinMaxTime() {
 	if t.Start != nil && t.End != nil {
 		t.minT, t.maxT = timestamp.FromTime(*t.Start), timestamp.FromTime(*t.End)
+		// change the query end time to the time of the last evaluation step, as findStartEndTime does:
+		// the samples after the last step belong to no step.
+		if step := durationMilliseconds(t.Step); step > 0 {
+			t.maxT = t.minT + (t.maxT-t.minT)/step*step
+		}
 	} else if t.Evaluation != nil {
 		t.minT, t.maxT = timestamp.FromTime(*t.Evaluation), timestamp.FromTime(*t.Evaluation)
 	}
